@@ -1,6 +1,9 @@
 fn main() {
     let ctx = mc_core::Ctx::from_args();
     match ctx.prop.as_str() {
-        p => mc_core::report::machinery_failure(&format!("mc-proto does not serve {p} yet")),
+        "C22" => mc_proto::c22::run(ctx),
+        "C24" => mc_proto::c24::run(ctx),
+        "C26" => mc_proto::c26::run(ctx),
+        p => mc_core::report::machinery_failure(&format!("mc-proto does not serve {p}")),
     }
 }
